@@ -23,7 +23,7 @@ from ..recipes import ref as R
 
 LEVEL = "exploration"
 BUDGET_S = {"quick": 75, "thorough": 1500}
-N_RANDOM = {"quick": 400, "thorough": 12000}
+N_RANDOM = {"quick": 2000, "thorough": 50000}
 RTOL = 1e-9
 
 DV = [
